@@ -248,6 +248,8 @@ fn gen_c02(seed: u64, idx: usize, tier: Tier) -> GitScenario {
     {
         let mut g = HistGen::new(&mut rng, model, dirs, prot);
         g.long_names = true;
+        g.bulk_left = if g.rng.chance(1, 12) { 1 } else { 0 };
+        g.big_left = if g.rng.chance(1, 8) { 1 } else { 0 };
         for _ in 0..n {
             let r = g.rng.below(10);
             if r < 6 || (!have_cp && r < 7) {
@@ -356,6 +358,10 @@ fn exec_c02(sc: &GitScenario) -> Outcome {
                         interesting = true;
                         out.fault("file_deleted", 1);
                     }
+                    GitOp::Bulk { .. } => {
+                        interesting = true;
+                        out.fault("listing_longer_than_one_pipe_buffer", 1);
+                    }
                     GitOp::Create { path } if name_class(path) == "non_ascii" || name_class(path) == "ascii_special" => {
                         interesting = true;
                         out.fault("name_git_would_quote", 1);
@@ -451,6 +457,7 @@ fn gen_c07(seed: u64, idx: usize, _tier: Tier) -> C07Scenario {
     let np = rng.range(1, 4);
     let mut phases = vec![];
     let mut g = HistGen::new(&mut rng, model, dirs, prot);
+    g.big_left = if g.rng.chance(1, 6) { 1 } else { 0 };
     for _ in 0..np {
         let nd = g.rng.range(1, 8);
         let dirty: Vec<GitOp> = (0..nd).map(|_| g.repo_op()).collect();
@@ -465,7 +472,12 @@ fn gen_c07(seed: u64, idx: usize, _tier: Tier) -> C07Scenario {
                     let v: Vec<&String> = head.iter().collect();
                     GitOp::Delete { path: v[g.rng.below(v.len())].clone() }
                 }
-                1 if !wt.is_empty() => GitOp::Edit { path: wt[g.rng.below(wt.len())].clone() },
+                1 if !wt.is_empty() => {
+                    // prefer the big file when there is one; one edit in four keeps an old mtime
+                    let big: Vec<&String> = wt.iter().filter(|p| p.ends_with(".big")).collect();
+                    let path = if !big.is_empty() && g.rng.chance(1, 2) { big[0].clone() } else { wt[g.rng.below(wt.len())].clone() };
+                    if g.rng.chance(1, 4) { GitOp::EditOld { path } } else { GitOp::Edit { path } }
+                }
                 _ => {
                     let d = g.dirs[g.rng.below(g.dirs.len())].clone();
                     let n = g.model.wt.len() + g.model.commits.len() * 100 + edits.len();
@@ -566,8 +578,14 @@ fn exec_c07(sc: &C07Scenario) -> Outcome {
                 return out;
             }
             match op {
-                GitOp::Create { path } | GitOp::Edit { path } | GitOp::Delete { path } => {
+                GitOp::Create { path } | GitOp::Edit { path } | GitOp::EditOld { path } | GitOp::Delete { path } => {
                     edited.insert(path.clone());
+                    if path.ends_with(".big") {
+                        out.fault("edit_beyond_2mib_of_a_large_file", 1);
+                    }
+                    if matches!(op, GitOp::EditOld { .. }) {
+                        out.fault("edit_keeping_an_old_mtime", 1);
+                    }
                 }
                 _ => {}
             }
